@@ -7,11 +7,13 @@ package main
 import (
 	"encoding/json"
 	"fmt"
+	"os"
+	"runtime/pprof"
 
 	"verifharness/vlib"
 )
 
-const rule = "history case: >= 1 accepted read-key rotation AND >= 1 accepted admission (add / accept / invite-join) in the history; tree case: always (encrypted change built with the real tree and read back by every in-sync account); open case (one per history: every account keeps ONE open production tree for the whole history, writers write through it after every accepted record, everybody reads): >= 1 rotation AND >= 1 admission in the history"
+const rule = "history case: >= 1 accepted read-key rotation AND >= 1 accepted admission (add / accept / invite-join) in the history; tree case: always (encrypted change built with the real tree and read back by every in-sync account); open case (one per history: every account keeps ONE open production tree for the whole history, writers write through it after every accepted record, everybody reads): >= 1 rotation AND >= 1 admission in the history; interleaving case (one encrypted AddContent through an open production tree with ONE pending ACL record applied to the writer's ACL list at crossing k of the ACL lock): the crossing was reached, i.e. the record landed inside the AddContent call"
 
 type caseDesc struct {
 	Kind    string   `json:"kind"`
@@ -21,11 +23,21 @@ type caseDesc struct {
 	Tier    string   `json:"tier,omitempty"`
 	At      int      `json:"at,omitempty"`
 	Tags    []string `json:"tags,omitempty"`
+	// interleaving cases (ilv.go)
+	Rec  string `json:"rec,omitempty"`
+	Role string `json:"role,omitempty"`
+	K    int    `json:"k,omitempty"`
 }
 
 func main() {
 	o := vlib.ParseFlags()
 	vlib.Quiet()
+	if pf := os.Getenv("C05_CPUPROFILE"); pf != "" { // development aid
+		if f, err := os.Create(pf); err == nil {
+			_ = pprof.StartCPUProfile(f)
+			defer pprof.StopCPUProfile()
+		}
+	}
 	w := vlib.NewWriter(o.Out, "C05_run", 40)
 	var samples []interface{}
 
@@ -43,8 +55,25 @@ func main() {
 			np   bool
 		}
 		seen := map[key]bool{}
+		type wkey struct{ s, i uint64 }
+		ilvSels := map[wkey][]ilvSel{}
+		var ilvOrder []wkey
 		for _, raw := range vlib.ReadReplay(o.Replay) {
 			var d caseDesc
+			if err := json.Unmarshal(raw, &d); err == nil && d.Kind == "ilv" {
+				wk := wkey{d.Seed, d.Idx}
+				if _, ok := ilvSels[wk]; !ok {
+					ilvOrder = append(ilvOrder, wk)
+				}
+				dup := false
+				for _, s := range ilvSels[wk] {
+					dup = dup || s == ilvSel{d.Rec, d.Role, d.K}
+				}
+				if !dup {
+					ilvSels[wk] = append(ilvSels[wk], ilvSel{d.Rec, d.Role, d.K})
+				}
+				continue
+			}
 			if err := json.Unmarshal(raw, &d); err != nil || (d.Kind != "hist" && d.Kind != "tree" && d.Kind != "open") {
 				w.Stat("replay_unreadable_desc")
 				continue
@@ -56,6 +85,9 @@ func main() {
 			seen[k] = true
 			run(d.Seed, d.Idx, d.NoProbe)
 		}
+		for _, wk := range ilvOrder {
+			runIlvWorld(w, wk.s, wk.i, o.Tier, ilvSels[wk])
+		}
 	} else {
 		n := 60
 		if o.Tier == "thorough" {
@@ -64,8 +96,22 @@ func main() {
 		if o.Budget > 1 {
 			n *= o.Budget
 		}
+		if os.Getenv("C05_ILV_ONLY") != "" { // development aid: only the interleaving worlds
+			n = 0
+		}
 		for i := 0; i < n; i++ {
 			run(o.Seed, uint64(i), false)
+		}
+		// controlled interleavings of one tree write with one pending ACL record (ilv.go)
+		nw := 2
+		if o.Tier == "thorough" {
+			nw = 25
+		}
+		if o.Budget > 1 {
+			nw *= o.Budget
+		}
+		for i := 0; i < nw; i++ {
+			runIlvWorld(w, o.Seed, uint64(i), o.Tier, nil)
 		}
 	}
 	closeAcctStores()
